@@ -131,9 +131,11 @@ def listing(skind, storage):
 
 def replay_history(cfg, hist, check_last_only=True):
     """Replays `hist`; returns (violations, canonical state)."""
-    skind, kind = cfg
+    skind, kind = cfg[0], cfg[1]
+    reuse_lab = len(cfg) > 2 and cfg[2] == 'one-lab'
     silence_labtech()
     storage, tmp = make_storage(skind)
+    shared_lab = labtech.Lab(storage=storage, runner_backend='serial', notebook=False) if reuse_lab else None
     model = Model(kind, persistent=(skind != 'null'))
     viols = []
     extra_keys = 0
@@ -143,7 +145,7 @@ def replay_history(cfg, hist, check_last_only=True):
             failing = (op[3],) if op[0] == 'runfail' else ()
             U.WORLD.reset(epoch=epoch, faults=[NODES[i][0] for i in failing])
             tasks = build_tasks(kind)
-            lab = labtech.Lab(storage=storage, runner_backend='serial', notebook=False)
+            lab = shared_lab or labtech.Lab(storage=storage, runner_backend='serial', notebook=False)
             last = (step == len(hist) - 1)
             d = f'cfg={cfg} history={hist[:step + 1]}'
             try:
@@ -166,9 +168,9 @@ def replay_history(cfg, hist, check_last_only=True):
                 return viols, None
             if not last and check_last_only:
                 continue
-            # observers
+            # observers (on the same Lab object when the configuration reuses one Lab for the whole history)
             tasks = build_tasks(kind)
-            lab = labtech.Lab(storage=storage, runner_backend='serial', notebook=False)
+            lab = shared_lab or labtech.Lab(storage=storage, runner_backend='serial', notebook=False)
             cached = [lab.is_cached(t) for t in tasks]
             wantc = [i in model.d for i in range(len(NODES))]
             if cached != wantc:
@@ -280,9 +282,9 @@ def _j(x):
 def run(tier: str, seed: int) -> Result:
     silence_labtech()
     if tier == 'quick':
-        cfgs = [(('mem', 'TA'), 3), (('mem', 'TJ'), 2), (('mem', 'T2'), 2), (('local', 'TA'), 2), (('fsspec', 'TA'), 2), (('null', 'TA'), 2)]
+        cfgs = [(('mem', 'TA'), 3), (('mem', 'TA', 'one-lab'), 3), (('mem', 'TJ'), 2), (('mem', 'T2'), 2), (('local', 'TA'), 2), (('fsspec', 'TA'), 2), (('null', 'TA'), 2)]
     else:
-        cfgs = [(('mem', 'TA'), 4), (('mem', 'TJ'), 3), (('mem', 'T2'), 3), (('local', 'TA'), 3), (('fsspec', 'TA'), 3),
+        cfgs = [(('mem', 'TA'), 4), (('mem', 'TA', 'one-lab'), 4), (('local', 'TA', 'one-lab'), 3), (('mem', 'TJ'), 3), (('mem', 'T2'), 3), (('local', 'TA'), 3), (('fsspec', 'TA'), 3),
                 (('local', 'TJ'), 2), (('fsspec', 'TJ'), 2), (('null', 'TA'), 3)]
     stats = {'states': 0, 'transitions': 0, 'revisits': 0, 'frontier_sizes': []}
     viols: list = []
@@ -309,7 +311,7 @@ def run(tier: str, seed: int) -> Result:
         'exhaustive': True,
     }
     return Result('C08', 'model_checking', cov, assumptions=[
-        'a Lab keeps no state between calls other than the storage contents (fresh Lab and task objects per operation)',
+        'fresh Lab and task objects per operation, plus configurations in which ONE Lab object serves the whole history (state kept inside a Lab object would show)',
         'FsspecStorage exercised over fsspec LocalFileSystem (the reference implementation quoted in storage.py)',
     ], violations=viols)
 
